@@ -18,6 +18,10 @@ NA = {
 }
 
 CHECKS = {
+ "C09": dict(level="exploration", ref="DESIGN.md section 4 (C09)",
+   text="Seeded search over fiber programs x schedules: the simulator's scheduler (PRNG, aware of every fiber's state through the reference model) decides at run time which fiber is resumed, with what value and how many arguments, when fibers are abandoned and replaced, and when illegal transfers are attempted; the real VM executes the tape in the checked and release builds (and a slice under collect-at-every-allocation with quarantine) and the complete event history must equal that of a coroutine reference model (one Python generator per fiber). A clean batch is evidence, not proof.",
+   note="Trusted: the coroutine reference model and the runner's printer seam. Error classes of illegal transfers are implementation-confirmed; where two error conditions hold at once either class is accepted.",
+   technique="deterministic simulation: seeded scheduler owning every fiber transfer via a host-native decision tape, coroutine reference model, history equality across build profiles"),
  "C08": dict(level="fault_enumeration", ref="DESIGN.md section 4 (C08)",
    text="Seeded generation of handler nests; within each nest every single-fault placement on the fault-free path is enumerated (each dynamic fault point fails once, kinds rotating over all host ErrorKinds and 12 failing built-in operations) plus sampled multi-fault plans aimed at recovery code; every plan is executed by the real compiler+VM in the checked and the release profile and compared event-by-event with a reference interpreter built on Python's own try/except/finally. Evidence, not proof: nests are sampled.",
    note="Trusted: the Python reference semantics; the runner's printer seam; scenarios in the region of an open known finding are not generated or are executed without comparison (counted in the evidence).",
